@@ -346,7 +346,48 @@ func (e *Engine) checkGapScan(r *Report, rule string) {
 					cv := e.Canon(ed)
 					if hb.Dominates(pred) { // loop-carried
 						if _, isPhi := ed.(*ssa.Phi); !isPhi && pat("§[§].End").MatchString(cv) {
-							facts = append(facts, "carried: "+cv)
+							// the position only grows: recorded ranges may overlap or nest
+							conds := e.domConds(pred)
+							if t, ok := pred.Instrs[len(pred.Instrs)-1].(*ssa.If); ok && pred.Succs[0] != pred.Succs[1] {
+								conds = append(conds, e.CondStr(t.Cond, pred.Succs[0] == hb))
+							}
+							if hasStr(conds, "(phi(§) < §[§].End)") || hasStr(conds, "(§[§].End > phi(§))") {
+								facts = append(facts, "carried: "+cv+" (only when beyond the position)")
+							} else {
+								okAll = false
+								facts = append(facts, "CARRIED BACKWARDS POSSIBLE: "+cv+" is stored without comparing it with the position")
+							}
+						} else if ed == ssa.Value(ph) {
+							// the position is kept: allowed only on the edge where the part ends at or before it
+							conds := e.domConds(pred)
+							if t, ok := pred.Instrs[len(pred.Instrs)-1].(*ssa.If); ok && pred.Succs[0] != pred.Succs[1] {
+								conds = append(conds, e.CondStr(t.Cond, pred.Succs[0] == hb))
+							}
+							if hasStr(conds, "(§[§].End <= phi(§))") || hasStr(conds, "(phi(§) >= §[§].End)") {
+								facts = append(facts, "kept (the part ends at or before the position)")
+							} else {
+								okAll = false
+								facts = append(facts, "CARRIED UNCHANGED: "+strings.Join(conds, " & "))
+							}
+						} else if ip, isPhi := ed.(*ssa.Phi); isPhi && ip != ph {
+							// `if part.End > pos { pos = part.End }`: the position may stay only when the part ends at or before it
+							for k, iv := range ip.Edges {
+								ipred := ip.Block().Preds[k]
+								conds := e.domConds(ipred)
+								if t, ok := ipred.Instrs[len(ipred.Instrs)-1].(*ssa.If); ok && ipred.Succs[0] != ipred.Succs[1] {
+									conds = append(conds, e.CondStr(t.Cond, ipred.Succs[0] == ip.Block()))
+								}
+								if _, inner := iv.(*ssa.Phi); !inner && pat("§[§].End").MatchString(e.Canon(iv)) && (hasStr(conds, "(phi(§) < §[§].End)") || hasStr(conds, "(§[§].End > phi(§))")) {
+									facts = append(facts, "carried: "+e.Canon(iv)+" (only when beyond the position)")
+									continue
+								}
+								if iv == ssa.Value(ph) && (hasStr(conds, "(§[§].End <= phi(§))") || hasStr(conds, "(phi(§) >= §[§].End)")) {
+									facts = append(facts, "kept (the part ends at or before the position)")
+									continue
+								}
+								okAll = false
+								facts = append(facts, "CARRIED UNCHANGED OR FOREIGN: "+e.Canon(iv))
+							}
 						} else {
 							okAll = false
 							facts = append(facts, "CARRIED UNCHANGED OR FOREIGN: "+cv)
@@ -360,6 +401,14 @@ func (e *Engine) checkGapScan(r *Report, rule string) {
 				}
 				r.Check(okAll, rule, fmt.Sprintf("%s: scan position feeding ByteRange.Beg #%d", e.ShortName(cf), found), e.InstrPos(st),
 					"the gap scan can leave its position behind a part it has seen: later gaps and the tail then include bytes the receiver holds (they are sent again)", len(ph.Edges), facts...)
+				// a gap exists only where the next part begins BEYOND the position (recorded ranges may overlap: a part
+				// that begins before the position must not produce an inverted range)
+				if hb.Dominates(st.Block()) && st.Block() != hb && reaches(st.Block(), hb, nil) {
+					conds := e.domConds(st.Block())
+					okGap := hasStr(conds, "(phi(§) < §[§].Beg)") || hasStr(conds, "(§[§].Beg > phi(§))")
+					r.Check(okGap, rule, fmt.Sprintf("%s: a missing range inside the file is emitted only when position < next part's Beg #%d", e.ShortName(cf), found), e.InstrPos(st),
+						"a `missing` range is produced whenever the next part does not begin exactly at the position: for overlapping recorded ranges (part.Beg < position) it is inverted - negative length, send size too small", 1, conds...)
+				}
 			})
 			// sorted before scanned
 			if loopHdr != nil {
